@@ -60,6 +60,7 @@ type RCase struct {
 	Group     string `json:"group"` // comparison group (C04 / C18 / C13)
 	GClause   string `json:"gclause"`
 	Tag       string `json:"tag"`
+	Mech      bool   `json:"mech"`      // record the Reader's mechanism events (hooks) as well
 	GroupLast bool   `json:"grouplast"` // only the last segment takes part in the group comparison
 }
 
@@ -468,6 +469,18 @@ func sameGz(a, b GzHeader) bool {
 // execReaderCase runs the segments of a case on one Reader.
 func execReaderCase(c *RCase, arch int, emit func(interface{})) {
 	rec := &rrec{id: c.ID, emit: emit}
+	if c.Mech && c.Impl == "fastgo" {
+		// mechanism events of the inflater's input handling, interleaved with the contract events
+		nm := 0
+		fgflate.VerifSetReaderTrace(func(ev string, a, b, cc, d int) {
+			// the order relative to the (merged) contract events does not matter: two separate validations;
+			// a case contributes its first few thousand mechanism events
+			if nm++; nm <= 3000 {
+				emit(MechEvent{Ev: "RMech", Case: c.ID, M: ev, A: a, B: b, C: cc, D: d})
+			}
+		})
+		defer fgflate.VerifSetReaderTrace(nil)
+	}
 	var u readerUnderTest
 	have := false
 	for si := range c.Segs {
